@@ -114,6 +114,8 @@ def base_configs(tier: str) -> List[dict]:
     many["parameters"] = {"addend": 0.5}
     out.append(cfg([n("VSrc", {"value": 2.0}), many, n("VSum")]))
     out.append(cfg([n("VSrc", {"value": 2.0}), n("VFive", {"gain": 1.0}), _sweep("VFive", {"bias": "t + 1.0", "factor": "t"}, {"t": {"values": [1.0]}}), n("VSum")]))
+    # a sweep variable whose values are mappings (key order inside a value is cosmetic; a value is identity-bearing)
+    out.append(cfg([n("VSrc", {"value": 2.0}), _sweep("VNested", {"opts": "t"}, {"t": {"values": [{"a": 1, "b": {"y": 2, "x": 1}}, {"b": 3, "a": 4}]}}), n("VSum")]))
     # run spaces
     out.append(cfg([gen.SYMBOLS[s]["node"] for s in ("src_ctx", "failif", "probe_r")], RUN_SPACES[0]))
     out.append(cfg([gen.SYMBOLS[s]["node"] for s in ("src_ctx", "two")], RUN_SPACES[1]))
